@@ -355,7 +355,7 @@ func init() {
 			e.Stream.Open()
 			c.WaitIdle()
 			when := vrt.Choose(4, true, "backlog-arrives") // 0 before the rebalance, 1 while closed, 2 right after vb0 re-opened, 3 not at all
-			slow := vrt.Choose(3, true, "slow-vb")          // 0 none, else that vBucket's re-open round trip is slow
+			slow := vrt.Choose(3, true, "slow-vb")         // 0 none, else that vBucket's re-open round trip is slow
 			feed := func() {
 				c.Append(0, marker(2, 3), symbolPacket("M", 2), symbolPacket("D", 3))
 			}
